@@ -333,6 +333,40 @@ def check_local_params(ctx, f, lp):
            "an un-annotated reaction becomes (reactants, products, 'general', {'rate': formula string}, no delay)", str(rx))
 
 
+def check_unannotated_general(ctx, rule):
+    """A reaction without a bioscrape annotation comes back as the general propensity whose rate is the formula string of its kinetic
+    law, on every path of that branch - never as a type guessed from the shape of the formula.  (For a plain document the guess would
+    leave the rate equations unchanged, so C13 does not demand this; the round trip does: general rates are written un-annotated and
+    their stochastic and volume forms differ from those of mass action.)"""
+    f = func(ctx, 'import_sbml_reactions')
+    loops = [n for n in f.body if isinstance(n, ast.For) and 'getListOfReactions' in src(n.iter)]
+    if len(loops) != 1:
+        raise AnalysisError('import_sbml_reactions: reaction loop not found')
+    lp = loops[0]
+    where = ctx.loc('sbmlutil', lp)
+    un = []
+    anns = [n for n in ast.walk(lp) if isinstance(n, ast.If) and isinstance(n.test, ast.Compare) and isinstance(n.test.left, ast.Constant)
+            and n.test.left.value == 'PropensityType' and isinstance(n.test.ops[0], ast.In)]
+    if len(anns) != 1 or not anns[0].orelse:
+        raise AnalysisError('import_sbml_reactions: the branch for reactions without a PropensityType annotation was not found')
+    from ..templates import StrExec, Hole, UNKNOWN
+    pps = paths.Enumerator().run(anns[0].orelse, paths.State())
+    ctx.paths += len(pps)
+    for p_ in pps:
+        if p_.exit == 'raise':
+            continue
+        ex = StrExec({'rate_string': Hole('FORMULA'), 'kl_formula': Hole('FORMULA')}, ())
+        for e in p_.stmts():
+            if isinstance(e.node, (ast.Assign, ast.AugAssign)):
+                ex.stmt(e.node)
+        pp = ex.env.get('propensity_params', UNKNOWN)
+        if not (isinstance(pp, dict) and pp.get('type') == 'general' and pp.get('rate') == 'FORMULA' and set(pp) == {'type', 'rate'}):
+            un.append('an un-annotated reaction gets %r [%s]' % (pp, paths.describe(p_, 3)))
+    ctx.ob(rule, 'unannotated-is-general', not un, where,
+           "a reaction without a PropensityType annotation is read as ('general', {'rate': formula of its kinetic law}) on every path",
+           '; '.join(sorted(set(un))[:2]))
+
+
 def check_species(ctx):
     import sympy as sp
     from .. import symx
